@@ -346,7 +346,8 @@ def validate_trace_parallel(trace_tla, cfg, trace_file, nparts=8, timeout=1800, 
         tv = validate_trace(trace_tla, cfg, f, timeout=timeout, heap=heap)
         tv.trace_file = f
         return tv
-    with concurrent.futures.ThreadPoolExecutor(max_workers=len(files)) as ex:
+    # many small parts, at most 14 TLC processes at a time: a part stays small enough for its heap and its time limit
+    with concurrent.futures.ThreadPoolExecutor(max_workers=min(len(files), 14)) as ex:
         parts = list(ex.map(one, files))
     nlines = sum(p.nlines for p in parts)
     return TvMulti(parts, nlines, time.time() - t0)
